@@ -215,6 +215,10 @@ type Interp struct {
 	// it is read (return ok=false for the default: an opaque symbol).
 	FieldInit func(obj string, field string, t types.Type) (Val, bool)
 
+	// Halt can be set (e.g. from OnCall) to abandon the current run: every active
+	// Call returns at once with an empty value and Err stays nil.
+	Halt bool
+
 	MaxSteps int
 	MaxDepth int
 	depth    int
@@ -301,9 +305,12 @@ func (it *Interp) Call(fn *ssa.Function, args []Val, bindings []Val) Val {
 	}
 	b := fn.Blocks[0]
 	var prev *ssa.BasicBlock
-	for it.Err == nil {
+	for it.Err == nil && !it.Halt {
 		var next *ssa.BasicBlock
 		for _, in := range b.Instrs {
+			if it.Halt {
+				return Val{}
+			}
 			it.W.Steps++
 			if it.W.Steps > it.MaxSteps {
 				it.fail("step budget exceeded in %s (unbounded loop on abstract data?)", fn)
@@ -496,8 +503,11 @@ func (it *Interp) instr(fr *frame, v ssa.Value) Val {
 		base := it.eval(fr, x.X)
 		name := fieldName(x.X.Type(), x.Field)
 		if al, ok := x.X.(*ssa.Alloc); ok {
-			// field of a local struct cell
-			_ = al
+			// field of a local struct cell that holds a (copied) opaque struct:
+			// read through to the struct's own symbol
+			if cv, ok := fr.cells[al]; ok && cv.K == KObj {
+				base = cv
+			}
 		}
 		if base.K == KNil {
 			it.fail("field of nil in %s", fr.fn)
